@@ -439,6 +439,24 @@ def load_findings():
     return out
 
 
+class _Null:
+    def write(self, s):
+        return len(s)
+
+    def flush(self):
+        pass
+
+
+def quiet_picotool():
+    """picotool's util.error / util.write go to streams captured at import time; silence them."""
+    try:
+        from pico8 import util
+        util._error_stream = _Null()
+        util._write_stream = _Null()
+    except Exception:
+        pass
+
+
 def parmap(fn, items, procs=16, chunksize=None):
     """Fork-based parallel map for pure functions of picklable arguments."""
     import multiprocessing as mp
